@@ -56,17 +56,27 @@ Definition refined_sustain (l : list (option Z)) : sustain :=
       then SInt s0 else STuple l
   end.
 
-(** [complex_sustain_from_parsed_datas]: only [datas[0]] is tested for OPEN (pinned code). *)
-Definition complex_sustain (g : list ndata) : result sustain :=
+Definition lane_sustains (g : list ndata) : list (option Z) :=
+  fold_left (fun l d => if is_5_note (nd_idx d)
+                        then set_nth (Z.to_nat (nd_idx d)) (Some (nd_sus d)) l else l)
+            g no_sustains.
+
+(** [complex_sustain_from_parsed_datas] on the pinned tree: only [datas[0]] is tested for OPEN.
+    Kept for the record [C03_refuted_pinned]; the model follows the repaired source below. *)
+Definition complex_sustain_pinned (g : list ndata) : result sustain :=
   match g with
   | [] => Err EIndex
   | d0 :: _ =>
       if nd_idx d0 =? IDX_OPEN then Ok (SInt (nd_sus d0))
-      else
-        Ok (refined_sustain
-              (fold_left (fun l d => if is_5_note (nd_idx d)
-                                     then set_nth (Z.to_nat (nd_idx d)) (Some (nd_sus d)) l else l)
-                         g no_sustains))
+      else Ok (refined_sustain (lane_sustains g))
+  end.
+
+(** [complex_sustain_from_parsed_datas] (repaired): the first OPEN line of the tick, wherever
+    it stands, gives the sustain; otherwise the lane lines do. *)
+Definition complex_sustain (g : list ndata) : result sustain :=
+  match find (fun d => nd_idx d =? IDX_OPEN) g with
+  | Some d => Ok (SInt (nd_sus d))
+  | None => Ok (refined_sustain (lane_sustains g))
   end.
 
 (** [NoteEvent._longest_sustain]. *)
